@@ -67,6 +67,7 @@ def run(ctx):
                             break
                         yield
                         pos = tuple(tile.pos)
+                        toastlat.scribble(tile)      # the caller owns the returned tile; later lookups must not depend on it
                         chain.append(pos)
                         ctx.distinct((csname, p, d))
                         if pos not in t.adm[p][d - 1]:
@@ -96,6 +97,7 @@ def run(ctx):
                 tile = toast.toast_tile_for_point(d, lat, lon, coordsys=cs)
                 yield
                 pos = tuple(tile.pos)
+                toastlat.scribble(tile)
                 exp = (d, i >> (RR - d), j >> (RR - d))
                 ctx.count()
                 ctx.distinct((csname, (i, j, RR), d))
